@@ -265,7 +265,17 @@ def run_task(task):
             out['outcomes'][res.outcome] = out['outcomes'].get(res.outcome, 0) + 1
             if out['vacuity_witness'] == 0:
                 # reachability twin: `assert False` here must be violated
-                if eng.prove(False) is None:
+                try:
+                    w = eng.prove(False)
+                except Inconclusive:
+                    # stub hypotheses (lazy lemmas) too hard to satisfy constructively: witness the path condition alone
+                    lem, eng.lemmas = eng.lemmas, []
+                    try:
+                        w = eng.prove(False)
+                    finally:
+                        eng.lemmas = lem
+                    out['vacuity_without_lemmas'] = out.get('vacuity_without_lemmas', 0) + 1
+                if w is None:
                     raise Inconclusive("vacuity: assertion site reached with unsatisfiable path condition")
                 out['vacuity_witness'] = 1
             bad = None
